@@ -469,4 +469,19 @@ theorem validIn_of_ok {Val : Type} (winsOf : Wins) (step : Step Val) (order : Li
   have := validFrom_spec winsOf order [] order h.2 pre v post hsplit d hd
   simpa using this
 
+/-! ### driving API: a rollout is the iteration of single partitions -/
+
+theorem exec_append (winsOf : Wins) (step : Step Val) (st : XSt Val) (A B : List (List Vtx)) :
+    exec winsOf step st (A ++ B) = exec winsOf step (exec winsOf step st A) B := by
+  simp [exec, List.foldl_append]
+
+/-- executing the partitions one `run` at a time is executing the whole horizon at once -/
+theorem exec_partitions (winsOf : Wins) (step : Step Val) (st : XSt Val) (parts : List (List (List Vtx))) :
+    parts.foldl (fun s p => exec winsOf step s p) st = exec winsOf step st parts.flatten := by
+  induction parts generalizing st with
+  | nil => rfl
+  | cons p ps ih =>
+    simp only [List.foldl_cons, List.flatten_cons]
+    rw [ih, exec_append]
+
 end Rex.Sched
